@@ -17,7 +17,7 @@ def lex(data) -> dict:
         text = "\n".join(data)
     else:
         text = data
-    tok = {"bpm0": 0, "lnobj": "", "wavs": [], "exbpm": [], "hdr": [], "lines": [], "junk": 0, "bad_lines": 0}
+    tok = {"bpm0": 0, "lnobj": "", "wavs": [], "exbpm": [], "hdr": [], "lines": [], "junk": 0, "bad_lines": 0, "sigs": []}
     raw_lines = []
     for ln in text.replace("\r\n", "\n").replace("\r", "\n").split("\n"):
         s = ln.strip()
@@ -47,6 +47,12 @@ def lex(data) -> dict:
             tok["junk"] += 1
     ex = {e["id"]: e["bl"] for e in tok["exbpm"]}
     for m, ch, seq in raw_lines:
+        if ch == "02":
+            try:
+                tok["sigs"].append({"m": m, "f1000": int(round(float(seq) * 1000))})
+            except ValueError:
+                tok["bad_lines"] += 1
+            continue
         if len(seq) % 2 or not re.match(r"^[0-9A-Za-z]*$", seq):
             tok["bad_lines"] += 1
             continue
@@ -111,6 +117,8 @@ def concretize(f, r, merge=False, shuffle=True, lower=False, late_headers=False)
         late = [h for h in out if h.startswith(("#WAV", "#TITLE", "#GENRE"))]
         out = [h for h in out if h not in late]
     out.append("")
+    for sg in f.get("sigs", []):
+        out.append(f"#{sg['m']:03}02:{sg['f1000'] / 1000:g}")
     for m, ch, pairs in lines:
         s = "".join(pairs)
         out.append(f"#{m:03}{ch}:{s.lower() if lower else s}")
